@@ -6,7 +6,7 @@ def A(id, props, *edits, why=""):
 
 
 ALTS_B = [
-    A("alt-batch-ctx-checked-before-prep", ["C11", "C06", "C09", "C07", "C08"],
+    A("alt-batch-ctx-checked-before-prep", ["C11", "C06", "C09", "C07", "C08", "C03", "C04", "C05", "C10"],
       ("batch.go", '''	// Prep phase - returns []Result
 	prepResult, err := node.Prep(ctx, shared)''', '''	if err := ctx.Err(); err != nil {
 		return "", fmt.Errorf("run: context cancelled: %w", err)
@@ -49,7 +49,7 @@ ALTS_B = [
 		if ctx.Err() != nil {
 			return nil, fmt.Errorf("context cancelled during retry'''),
       why="the error of an exhausted item joins every attempt's error; the last attempt's error is still matched under errors.Is/As"),
-    A("alt-batch-premade-error-items-not-executed", ["C06", "C07", "C09", "C11", "C08"],
+    A("alt-batch-premade-error-items-not-executed", ["C06", "C07", "C09", "C11", "C08", "C03", "C04", "C05", "C10"],
       ("batch.go", '''		execResult, err := runExecWithRetries(ctx, node, item)
 		if err != nil {
 			results[i] = NewErrorResult(err)''', '''		if item.IsError() {
@@ -314,7 +314,7 @@ func runExecWithRetries(ctx context.Context, node Node, item Result) (any, error
 				}
 			}'''),
       why="the wait is a loop of short naps polling the context (returns within one nap of any cancellation)"),
-    A("alt-batch-rejects-undocumented-prep-forms", ["C02", "C17", "C04", "C06", "C07", "C18", "C19", "C20", "C09", "C11", "C08"],
+    A("alt-batch-rejects-undocumented-prep-forms", ["C02", "C17", "C04", "C06", "C07", "C18", "C19", "C20", "C09", "C11", "C08", "C03", "C05", "C10"],
       ("batch.go", '''	default:
 		// Try to convert using ToSlice
 		slice := ToSlice(prepResult)
@@ -345,7 +345,7 @@ func runExecWithRetries(ctx context.Context, node Node, item Result) (any, error
 		return fn(ctx, shared, prepResult.Value(), execResult.Value())
 	}'''),
       why="an Any-style post function receives the error of an error Result instead of nil"),
-    A("alt-batch-without-items-is-an-error", ["C19", "C04", "C18", "C06"],
+    A("alt-batch-without-items-is-an-error", ["C19", "C04", "C18", "C06", "C03", "C05", "C10"],
       ("batch.go", '''	// Convert to []Result
 	var items []Result
 	switch v := prepResult.(type) {''', '''	if prepResult == nil {
